@@ -255,6 +255,19 @@ EXTRA = {
     'C20': 'Also: in reb_simulation_move_to_com the totals come from completed loops over the right member and the per-particle summands of the first- and second-order shifts equal '
            'the first and mixed second derivative of sum m x / sum m (R20.7); units_convert_particle converts every dimensional field, also when written as a setattr loop. No parameter of the scaling/rotation wrappers is ignored or overwritten before it is read (R20.8); the inline conversions of the Python front end carry G exactly as the C ones do (R11.4, R11.8); every quaternion returned by reb_rotation_init_from_to is built from normalised vectors (unit typestate, R20.9); reb_rotation_to_orbital returns angles whose sum / difference reproduce the two arctangents that determine the rotation in each of its three branches, given the half-angle form of reb_rotation_init_orbit derived symbolically (R20.10). The effect sets of reb_simulation_imul/iadd/isub on a particle are exactly positions and velocities (R20.11); the vector constructors copy their arguments (R20.12). reb_rotation_init_to_new_axes projects on the normalised new z axis and is the product of from_to(newz, z) and a rotation about z (R20.13). reb_simulation_com sums over all real particles (R20.14). The methods of the vector and rotation classes load only bound names (R18.11, shared); Rotation constructors that build their result with a C function return nothing else (R20.15). Frame shifts are carried out for a single particle too (R20.16).',
 }
+# Rules of the eighth group (defects found by following up remarks of the round-7 agents).
+EXTRA8 = {
+    'C01': 'The jerk of the modified-kick schemes visits exactly the pair set of the acceleration it corrects - active-active and active-test pairs, never two test particles - for every ordering '
+           'of the counts, both test-particle types and the ignore-terms modes of its callers (R02.14, pair-domain engine); the direct term of the Jacobi-split gravity routine and of the WHFast '
+           'jerk is guarded to the same set, so the kernels MODIFIEDKICK and LAZY integrate the system the DEFAULT kernel integrates (R02.15).',
+    'C02': 'The same pair-domain evaluation covers the jerk routine (R02.14) and the guard of the direct term of the Jacobi-split routine and of reb_whfast_calculate_jerk (R02.15): no routine lets two '
+           'test particles interact. The root box a particle is filed in is decided by exact evaluation of the index function and of the root-cell constructor (R15.4, see C15).',
+    'C15': 'R15.4 is decided on values: reb_get_rootbox_for_particle and the root-cell constructor of reb_tree_add_particle_to_cell are evaluated exactly (rationals, C semantics of floor, casts and %) '
+           'on root layouts with unequal counts per axis and on both faces of the box, every root-box border and interior points on either side: the index is valid, the constructor builds the cell '
+           'of that index, and the cell contains the point by the test the tree update applies - a particle on a face of the box (which the boundary code keeps) included.',
+}
+for _k, _t in EXTRA8.items():
+    EXTRA[_k] = EXTRA[_k].rstrip() + ' ' + _t
 for _k, _t in EXTRA.items():
     CLAIMS[_k]['decided'] = CLAIMS[_k]['decided'].rstrip() + ' ' + _t
 CLAIMS['C02']['not_decided'] = 'numeric equality with the Newtonian sum, tree multipole bound, compensated-summation accuracy; pair sets of the encounter-mode loops (compact index space)'
